@@ -503,6 +503,12 @@ class BufferedFile(ClosingContextManager):
         # the underlying stream may be something that does partial writes (like
         # a socket).
         data = memoryview(raw_data)
+        if len(data) > 0 and len(self._rbuffer) > 0 and self.seekable():
+            # read-ahead is buffered, so the stream position is past the
+            # caller's position: drop the read-ahead (as seek() does) so the
+            # data lands where the caller is.
+            self._rbuffer = bytes()
+            self._realpos = self._pos
         while len(data) > 0:
             count = self._write(data)
             data = data[count:]
